@@ -51,3 +51,93 @@ def check_C04(ctx):
     for c in cases[:2] + cases[-2:]:
         ctx.sample({"id": c["id"], "source": c["source"], "imports": len(c["inm"]["imports"]), "funcs": len(c["inm"]["funcs"]), "elems": len(c["inm"]["elems"]), "data": len(c["inm"]["data"]), "sigma_func": c["sigma"]["func"]})
     ctx.assumptions += ["wasmparser 0.214 decodes both binaries faithfully", "the renumbering is proposed from walrus's own parse-time and emit-time maps and *checked* by TLC"]
+
+
+# ------------------------------------------------------------------------------------------------
+def write_cfg(name, text):
+    """Configurations whose constants depend on the tier are generated next to the committed ones."""
+    path = os.path.join(SPEC, name + ".cfg")
+    with open(path, "w") as f:
+        f.write(text)
+    return name
+
+
+def enum_control_strings(ctx, maxlen):
+    out = os.path.join(ctx.work, "ctl%d.txt" % maxlen)
+    cfg = write_cfg("Enum_Body_gen", "SPECIFICATION BSpec\nCONSTANTS\n  MaxLen = %d\n  MaxDepth = 3\nINVARIANTS\n  EmitCase\nCHECK_DEADLOCK FALSE\n" % maxlen)
+    r = tlc("Body", cfg=cfg, workers=8, cont=False, capture=("CASE", out), name="enum-body")
+    ctx.add_mc(r, "enum-control-strings(len<=%d)" % maxlen)
+    n = sum(1 for _ in open(out))
+    ctx.notes["control_strings"] = n
+    return out
+
+
+DODRIO = "/repo/benches/fixtures/dodrio-todomvc.wasm"
+
+
+def check_C03(ctx):
+    ctx.rule = ("design: Body.tla (validator fragment + walrus parser/emitter model) over all valid control strings up to the bound, invariant "
+                "EmittedMatches; implementation: every such string concretised, every instance of the operator table (all operators of the feature set x "
+                "boundary immediates, validator-probed typing) in live and dead position, fixtures, generated modules and the real-world fixture; "
+                "TLC's matcher (Trace_Body.tla) must align input and output operator lists function by function. A case is one module.")
+    q = ctx.quick()
+    cfg = write_cfg("MC_Body_gen", "SPECIFICATION BSpec\nCONSTANTS\n  MaxLen = %d\n  MaxDepth = 3\nINVARIANTS\n  EmittedMatches\n  EmittedBalanced\nCHECK_DEADLOCK FALSE\n" % (6 if q else 7))
+    model_check(ctx, "Body", cfg=cfg, workers=8, label="design-body")
+    ctl = enum_control_strings(ctx, 5 if q else 6)
+    n = 300 if q else 20000
+    shards = 4 if q else 16
+    trace = os.path.join(ctx.work, "bodies.ndjson")
+    for f in os.listdir(ctx.work):
+        if f.startswith("bodies.ndjson"):
+            os.remove(os.path.join(ctx.work, f))
+    inputs = "ctl:%s,ops,fixtures,file:%s,gen:%d,gen:%d:stable,gen:%d:big" % (ctl, DODRIO, n, n // 4, n // 20)
+    out = wv(["trace-bodies", "inputs=" + inputs, "seed=%d" % ctx.seed, "out=" + trace, "shards=%d" % shards])
+    ctx.notes["harness"] = out.strip().splitlines()[-1]
+    cases = judge_shards(ctx, "Trace_Body", ["%s.%d" % (trace, k) for k in range(shards)], label="matcher",
+                         slim=lambda c: {k: c[k] for k in ("id", "source", "sigma")})
+    for c in read_ndjson(trace + ".bad") if os.path.getsize(trace + ".bad") else []:
+        ctx.evaluations += 1
+        ctx.report(c["id"], "outcome", c["outcome"], {"source": c["source"]})
+    nfun = sum(len(c["funcs"]) for c in cases)
+    nops = sum(len(f["inops"]) for c in cases for f in c["funcs"])
+    ctx.notes["functions_matched"] = nfun
+    ctx.notes["operators_matched"] = nops
+    for c in cases[:1] + cases[5000:5001] + cases[-1:]:
+        if c["funcs"]:
+            f = c["funcs"][0]
+            ctx.sample({"id": c["id"], "source": c["source"], "in": [o["o"] for o in f["inops"]][:12], "out": [o["o"] for o in f["outops"]][:12]})
+    ctx.assumptions += ["wasmparser 0.214 decodes operators faithfully", "operand typing of each operator is discovered by probing wasmparser's validator"]
+
+
+# ------------------------------------------------------------------------------------------------
+def gc_trace(ctx, which):
+    q = ctx.quick()
+    fams = ["tables", "memories"] if q else FAMILIES
+    n = 500 if q else 20000
+    model_check_many(ctx, [("MC_Walrus", "MC_Walrus_%s_gc" % f.capitalize(), "design-gc-" + f) for f in (["calls", "tables"] if q else FAMILIES)])
+    trace = os.path.join(ctx.work, "gc.ndjson")
+    inputs = "fixtures,file:%s,%s,gen:%d,gen:%d:stable,gen:%d:mvp" % (DODRIO, fam_inputs(ctx, fams), n, n // 4, n // 4)
+    wv(["trace-gc", "inputs=" + inputs, "seed=%d" % ctx.seed, "out=" + trace])
+    os.environ["PROPERTY"] = which
+    r, cases = judge_trace(ctx, "Trace_GC", trace, slim=lambda c: {k: c[k] for k in ("id", "source", "outcome", "sigma", "extra_roots")})
+    for c in cases[:2] + cases[-2:]:
+        kept = {sp: sum(1 for x in v if x >= 0) for sp, v in c["sigma"].items()}
+        total = {sp: len(v) for sp, v in c["sigma"].items()}
+        ctx.sample({"id": c["id"], "source": c["source"], "extra_roots": c["extra_roots"], "kept": kept, "of": total})
+    ctx.notes["cases_where_gc_removed_something"] = sum(1 for c in cases if any(x < 0 for v in c["sigma"].values() for x in v))
+    ctx.assumptions += ["wasmparser 0.214 decodes and validates both binaries", "sigma proposed from walrus's own maps, checked by TLC"]
+
+
+def check_C06(ctx):
+    ctx.rule = ("design: Walrus.tla with the GC worklist of passes/used.rs over Families.tla, invariants NoPanic, OutputIsIso, GcExact (used = Reach); "
+                "implementation: parse;gc;emit on concretised families, fixtures, real-world fixture and generated modules (a third of them with extra roots "
+                "contributed by a typed custom section); TLC recomputes Reach declaratively and requires out valid, Iso on the kept part, exports equal, "
+                "nothing reachable dropped. A case is one module; non-trivial = the pass removed something.")
+    gc_trace(ctx, "C06")
+
+
+def check_C07(ctx):
+    ctx.rule = ("same traces as C06, converse direction: Reach recomputed on the *output* must cover every emitted entity (residue: at most one memory when a "
+                "data segment is emitted), every emitted type is used, and parse;gc;gc;emit yields the bytes of parse;gc;emit. Design: GcExact and SecondGcIsNoOp "
+                "on Walrus.tla.")
+    gc_trace(ctx, "C07")
